@@ -15,7 +15,7 @@ enum Plan { P_NONE, P_ABORT, P_ERROR, P_TIMEOUT, P_TOOMANY_CONT, P_TOOMANY_ABORT
 static const char* PLAN_NAMES[] = {"none", "abort", "error", "timeout", "toomany-continue", "toomany-abort", "notready-resume", "notready-abandon"};
 enum BufKind { B_TEXT, B_PE, B_ELF, B_EMPTY, B_MANY, B_FIBER, B_TEXT2, B_NKINDS };
 static const char* BUF_NAMES[] = {"text", "pe", "elf", "empty", "many", "fiberbomb", "text2"};
-struct Op { int buf; int plan; int k; int entry; int flags; int mdata; };   // entry: 0 mem, 1 file, 2 blocks(2 parts)
+struct Op { int buf; int plan; int k; int entry; int flags; int mdata; };   // entry: 0 mem, 1 file, 2 blocks(2 parts), 3 process memory of a sleeping child
 
 struct H10 { CompileSpec spec; std::vector<std::string> bufs; std::vector<Op> ops; };
 
@@ -32,6 +32,8 @@ static H10 gen_h10(Rng& rng) {
   h.spec = lc.spec;
   // in a third of the histories more than 64 strings precede the limit-hitting ones (per-string bitmasks then span several words)
   std::string pad;
+  // in a fifth of the histories more than 64 rules exist (per-rule bitmasks then span several words); their verdicts depend on the buffer
+  if (rng.chance(1, 5)) for (int i = 0; i < 70; i++) pad += "rule manyr" + std::to_string(i) + " { condition: filesize % 7 == " + std::to_string(i % 7) + " or uint8(0) == " + std::to_string(60 + i) + " }\n";
   if (rng.chance(1, 3)) { pad = "rule padding {\n  strings:\n"; for (int i = 0; i < 70; i++) pad += "    $p" + std::to_string(i) + " = \"pad_" + std::to_string(i) + "_x\"\n"; pad += "  condition:\n    any of them\n}\n"; }
   h.spec.sources[0].second = "import \"tests\"\nimport \"pe\"\n" + h.spec.sources[0].second + pad + C10_EXTRA +
     "rule md { condition: tests.module_data == \"mdata-1\" }\nrule ep { condition: entrypoint >= 0 }\nrule fsz { condition: filesize > 1000 }\nrule pesec { condition: pe.number_of_sections > 2 }\n";
@@ -46,12 +48,26 @@ static H10 gen_h10(Rng& rng) {
     Op o; o.buf = (int) rng.below(B_NKINDS); o.plan = rng.chance(2, 5) ? P_NONE : (int) rng.below(P_NPLANS);
     o.k = (int) rng.below(40); o.entry = (int) rng.below(3); o.flags = (int) rng.below(4); o.mdata = (int) rng.below(3);
     if (o.plan == P_NR_RESUME || o.plan == P_NR_ABANDON) o.entry = 2;
+    else if (rng.chance(1, 14) && o.plan != P_TOOMANY_CONT && o.plan != P_TOOMANY_ABORT) { o.entry = 3; if (o.plan == P_TIMEOUT) o.plan = P_ERROR; }
     h.ops.push_back(o);
   }
   return h;
 }
 
 struct ScanOut { std::string trace; int rc = 0; int64_t clock_reads = 0; bool fired = false; };
+
+// a small sleeping child whose memory is scanned by the "process" entry point (one per worker, killed at exit)
+#include <signal.h>
+#include <sys/wait.h>
+static int g_proc_child = 0;
+static int proc_child() {
+  if (g_proc_child > 0) return g_proc_child;
+  int p = fork();
+  if (p == 0) { execl("/bin/sleep", "sleep", "100000", (char*) NULL); _exit(127); }
+  g_proc_child = p; usleep(50000);
+  atexit([] { if (g_proc_child > 0) { kill(g_proc_child, SIGKILL); waitpid(g_proc_child, NULL, 0); } });
+  return p;
+}
 
 static const char* MDATA[] = {"", "mdata-1", "mdata-2"};
 
@@ -72,6 +88,8 @@ static ScanOut exec_op(YR_SCANNER* sc, const H10& h, const Op& o, bool reference
   if (o.entry == 1) {
     std::string path = tmp_dir() + "/c10.scan"; write_file(path, buf);
     rc = yr_scanner_scan_file(sc, path.c_str());
+  } else if (o.entry == 3) {
+    rc = yr_scanner_scan_proc(sc, proc_child());
   } else if (o.entry == 2) {
     BlockIter bi; size_t cut = buf.size() / 2;
     if (buf.size() >= 2) bi.init(buf.data(), buf.size(), {{0, cut}, {cut, buf.size() - cut}}); else bi.init_single(buf.data(), buf.size());
@@ -81,6 +99,8 @@ static ScanOut exec_op(YR_SCANNER* sc, const H10& h, const Op& o, bool reference
     if (rc == ERROR_BLOCK_NOT_READY && o.plan == P_NR_RESUME) { rec.text += "--resume--\n"; rc = yr_scanner_scan_mem_blocks(sc, &bi.it); }
   } else rc = yr_scanner_scan_mem(sc, (const uint8_t*) buf.data(), buf.size());
   out.rc = rc; out.trace = rec.text; out.clock_reads = g_clock.reads;
+  // what the API reports as the culprit of a failed scan is part of the observable result
+  if (rc != ERROR_SUCCESS && rc != ERROR_BLOCK_NOT_READY) { YR_STRING* es = yr_scanner_last_error_string(sc); YR_RULE* er = yr_scanner_last_error_rule(sc); out.trace += std::string("last_error_string=") + (es ? es->identifier : "-") + " last_error_rule=" + (er ? er->identifier : "-") + "\n"; }
   if (rc == ERROR_SCAN_TIMEOUT || rec.too_many || (rec.reply_at >= 0 && rec.reply_at < rec.nmsgs)) out.fired = true;
   sim_clock_reset();
   return out;
@@ -141,10 +161,10 @@ static Diff10 run_h10(const H10& h, YR_RULES* rules, Stats* st, bool destroy_che
 // seed-independent summary of a (shrunk) history: the injected outcomes and the special buffers in it
 static std::string triggers10(const H10& h) {
   std::set<std::string> t;
-  for (auto& o : h.ops) { if (o.plan != P_NONE) t.insert(PLAN_NAMES[o.plan]); if (o.buf == B_MANY || o.buf == B_FIBER) t.insert(std::string("buf:") + BUF_NAMES[o.buf]); }
+  for (auto& o : h.ops) { if (o.plan != P_NONE) t.insert(PLAN_NAMES[o.plan]); if (o.entry == 3) t.insert("process-scan"); else if (o.buf == B_MANY || o.buf == B_FIBER) t.insert(std::string("buf:") + BUF_NAMES[o.buf]); }
   std::string s; for (auto& x : t) { if (!s.empty()) s += ","; s += x; } return s.empty() ? "plain-scans" : s;
 }
-static std::string shape10(const H10& h) { std::string s; for (auto& o : h.ops) { if (!s.empty()) s += ">"; s += std::string(BUF_NAMES[o.buf]) + ":" + PLAN_NAMES[o.plan]; } return s; }
+static std::string shape10(const H10& h) { std::string s; for (auto& o : h.ops) { if (!s.empty()) s += ">"; s += std::string(o.entry == 3 ? "process" : BUF_NAMES[o.buf]) + ":" + PLAN_NAMES[o.plan]; } return s; }
 
 static J h10_json(const H10& h) {
   J j = J::obj(); j.set("engine", "sim_history"); j.set("mode", "c10");
@@ -176,10 +196,10 @@ static H10 shrink10(const H10& h0, YR_RULES* rules, const Diff10& d0) {
   // simplify the surviving ops: no injected outcome, plain text buffer, entry mem, flags both, no module data, where that keeps the divergence
   for (size_t i = 0; i < h.ops.size() && budget > 0; i++) {
     if (h.ops[i].plan != P_NONE) { H10 t = h; t.ops[i].plan = P_NONE; budget--; Diff10 d = run_h10(t, rules, nullptr); if (d.op >= 0 && d.what == d0.what && d.tag == d0.tag) h = t; }
-    if (h.ops[i].buf != B_TEXT2) { H10 t = h; t.ops[i].buf = B_TEXT2; budget--; Diff10 d = run_h10(t, rules, nullptr); if (d.op >= 0 && d.what == d0.what && d.tag == d0.tag) h = t; }
+    if (h.ops[i].buf != B_TEXT2 && h.ops[i].entry != 3) { H10 t = h; t.ops[i].buf = B_TEXT2; budget--; Diff10 d = run_h10(t, rules, nullptr); if (d.op >= 0 && d.what == d0.what && d.tag == d0.tag) h = t; }
   }
   for (size_t i = 0; i < h.ops.size() && budget > 0; i++) {
-    H10 t = h; if (t.ops[i].plan != P_NR_RESUME && t.ops[i].plan != P_NR_ABANDON) t.ops[i].entry = 0; t.ops[i].flags = 0; t.ops[i].mdata = 0; budget--;
+    H10 t = h; if (t.ops[i].plan != P_NR_RESUME && t.ops[i].plan != P_NR_ABANDON && t.ops[i].entry != 3) t.ops[i].entry = 0; t.ops[i].flags = 0; t.ops[i].mdata = 0; budget--;
     Diff10 d = run_h10(t, rules, nullptr); if (d.op >= 0 && d.what == d0.what && d.tag == d0.tag) h = t;
   }
   return h;
@@ -228,16 +248,17 @@ struct H20 { std::vector<Op20> pre; std::vector<Op20> ops; };
 
 static Val gen_val(Rng& rng, char type, bool allow_null) {
   Val v; v.type = type;
-  static const int64_t ints[] = {0, 1, 2, 3, 4, 5, 12, 42, 43, 7};
+  static const int64_t ints[] = {0, 1, 2, 3, 4, 5, 12, 42, 43, 7, 0x100000001LL, -1, 0x7fffffffffffffffLL, 4294967338LL};
   static const double fl[] = {0.5, 2.5, 2.75, 9.5};
   static const char* ss[] = {"hay needle", "plain", "", "xx neeedle", "needle not at end.", "ext_i", "x_int", "hay", "no"};
-  if (type == 'i') v.i = ints[rng.below(10)]; else if (type == 'b') v.i = rng.below(2); else if (type == 'f') v.f = fl[rng.below(4)];
+  if (type == 'i') v.i = ints[rng.below(14)]; else if (type == 'b') v.i = rng.below(2); else if (type == 'f') v.f = fl[rng.below(4)];
   else { if (allow_null && rng.chance(1, 8)) v.null_s = true; else v.s = ss[rng.below(9)]; }
   return v;
 }
 static Val gen_val_for(Rng& rng, int id, char type, bool allow_null) {
   Val v = gen_val(rng, type, allow_null);
   if (type == 'i' && id == 5) v.i = 1 + rng.below(3);      // ext_n in 1..3
+  if (type == 'i' && id == 4) v.i = (int64_t) rng.below(13);   // ext_off in 0..12 (ranges with huge or negative bounds are not what this model is about)
   return v;
 }
 static H20 gen_h20(Rng& rng) {
